@@ -61,6 +61,10 @@ func (o *OracleC09) After(x *Exec, op *Op, res *Res) {
 	if op.K == KDelegate && res.OK {
 		o.deposits = append(o.deposits, pre.Time)
 	}
+	// the claim interval in force is the one the last accepted governance message configured
+	if x.L.ClaimInterval >= 0 && int64(post.Params.TakeRateClaimInterval) != x.L.ClaimInterval {
+		x.Fail("C09", "interval", "after %s the take-rate claim interval is %s, the last accepted update_params set %s", op.K, post.Params.TakeRateClaimInterval, time.Duration(x.L.ClaimInterval))
+	}
 	if op.K != KBlock {
 		// outside end-of-block nothing may move the take-rate clock … except governance replacing params
 		if op.K != KParams && !pre.Params.LastTakeRateClaimTime.Equal(post.Params.LastTakeRateClaimTime) {
